@@ -791,6 +791,7 @@ func (tree *MutableTree) SaveVersion() ([]byte, int64, error) {
 		if err := tree.saveFastNodeVersion(version); err != nil {
 			return nil, version, err
 		}
+		verifYield("save:index-staged")
 	}
 	// save new nodes
 	if tree.root == nil {
